@@ -799,6 +799,24 @@ pub fn gen_c03(rng: &mut Prng, run: u64, _t: &Tier) -> Vec<Ev> {
     ev.push(Ev::KemProbe { kem, kr: 0, ks: None, rng: rng_script(rng, kem) });
     ev.push(Ev::KemProbe { kem, kr: 0, ks: Some(1), rng: rng_script(rng, kem) });
     ev.push(Ev::KemProbe { kem, kr: 2, ks: Some(0), rng: rng_script(rng, kem) });
+    if kem.is_nist() && rng.chance(1, 3) {
+        // the extreme legal private keys (1, 2, n-2, n-1) as recipient key and as sender identity key
+        let cv = math::curve(kem);
+        let nsk = kem.rfc_sizes().2;
+        let one = math::U::from_u64(1);
+        let sc = match rng.below(4) {
+            0 => one,
+            1 => math::U::from_u64(2),
+            2 => cv.n.sub(&math::U::from_u64(2)).0,
+            _ => cv.n.sub(&one).0,
+        };
+        let sk = sc.to_be(nsk);
+        if let Some(pk) = refhpke::pk_of(kem, &sk) {
+            ev.push(Ev::KeyRaw { k: 13, kem, sk: b(sk), pk: b(pk) });
+            ev.push(Ev::KemProbe { kem, kr: 13, ks: Some(1), rng: rng_script(rng, kem) });
+            ev.push(Ev::KemProbe { kem, kr: 0, ks: Some(13), rng: rng_script(rng, kem) });
+        }
+    }
     if kem.is_nist() && rng.chance(1, 4) {
         // AuthEncap where the identity private key is the negation of the ephemeral one (n - skE): the
         // two public keys differ, the two DH x-coordinates coincide
@@ -2216,6 +2234,14 @@ pub fn gen_c12(rng: &mut Prng, run: u64, _t: &Tier) -> Vec<Ev> {
         for tagb in [0x00u8, 0x01, 0x02, 0x03, 0x05, 0x06, 0x07, 0x08, 0x44, 0x84, 0xff] {
             let mut v = pk.clone();
             v[0] = tagb;
+            ev.push(Ev::DecodeProbe { suite, kind, bytes: b(v) });
+        }
+        // a bit set in the leading byte of a coordinate: a different point, an invalid one, or (P-521)
+        // a value outside the field - never the same key again
+        let fl = (npk - 1) / 2;
+        for (off, bit) in [(1usize, 0x80u8), (1, 0x02), (1 + fl, 0x80), (1 + fl, 0x04)] {
+            let mut v = pk.clone();
+            v[off] ^= bit;
             ev.push(Ev::DecodeProbe { suite, kind, bytes: b(v) });
         }
     }
